@@ -341,6 +341,10 @@ mod inner {
     }
 
     pub(crate) fn register_dispatch(dispatcher: &Dispatch) {
+        // As in the `std` implementation, let the collector know which
+        // `Dispatch` it is now reachable through.
+        dispatcher.collector().on_register_dispatch(dispatcher);
+
         // If the collector did not provide a max level hint, assume
         // that it may enable every level.
         let level_hint = dispatcher.max_level_hint().unwrap_or(LevelFilter::TRACE);
